@@ -77,7 +77,11 @@ void sched_cfg_from_seed(uint64_t seed, int ntasks, uint64_t expect_steps, uint6
 
 bool in_task() { return tl_task != NULL; }
 int cur_task() { return tl_task ? tl_task->id : -1; }
-int cur_spid() { return tl_task ? tl_task->spid : 0; }
+// While the scheduler evaluates the wake-up condition of a blocked task it does so on that task's behalf: anything the
+// condition asks about "the calling process" (descriptor ownership) must be answered for the blocked task, not for whichever
+// task happens to be running the scheduler.
+static thread_local Task *tl_eval_as;
+int cur_spid() { Task *t = tl_eval_as ? tl_eval_as : tl_task; return t ? t->spid : 0; }
 int task_spid(int id) { return id >= 0 && id < (int)tasks.size() ? tasks[id]->spid : 0; }
 int n_tasks() { return (int)tasks.size(); }
 bool task_done(int id) { return tasks[id]->st == T_DONE; }
@@ -115,7 +119,13 @@ static bool is_runnable(Task *t)
 	if (t->st == T_RUNNABLE || t->st == T_NEW) return true;
 	// no side effects: many candidates are examined, only one is switched to
 	if (t->st == T_BLOCKED) {
-		if (t->pred && t->pred(t->parg)) return true;
+		if (t->pred) {
+			Task *prev = tl_eval_as;
+			tl_eval_as = t;
+			bool ok = t->pred(t->parg);
+			tl_eval_as = prev;
+			if (ok) return true;
+		}
 		if (t->deadline >= 0 && t->deadline <= g_now) return true;
 	}
 	return false;
